@@ -8,13 +8,25 @@ M_ = 'Obj("core.matcher.Matcher")'
 _ALPHA = list('abcwl_*!.,:()[]="@# 0123456789') + ['nil', 'new', 'wl_surface', '\u00e9', '\u4e2d', '\x1b[31m', '\x1b[0m', '\t', '\n', '-', '1.5', "'", '\\']
 
 
-def _gen_parse(rnd):
+_TOKENS = ['@', '#', 'a', 'ZZ', 'b', '5', '5a', '0', 'wl_surface', 'x*', '.', 'new', '(', ')', '[', ']', ',', '!', ':', '=', '"', 'nil', '*', ' ', '1.5', '-', 'A', '\u00e9']
+
+
+def _gen_parse(rnd, it):
+    """iterations 0..: every string of one or two tokens, then (interleaved) documented-grammar expressions, the fixed examples, token soups and character soups"""
     from spec import matcher_ref
+    n = len(_TOKENS)
+    if it < n:
+        return (_TOKENS[it],)
+    if it < n + n * n:
+        k = it - n
+        return (_TOKENS[k // n] + _TOKENS[k % n],)
     r = rnd.random()
-    if r < 0.7:
+    if r < 0.6:
         return (matcher_ref.generate(rnd),)
-    if r < 0.8:
+    if r < 0.65:
         return (rnd.choice(_MT),)
+    if r < 0.9:
+        return (''.join(rnd.choice(_TOKENS) for _ in range(rnd.randint(3, 7))),)
     return (''.join(rnd.choice(_ALPHA) for _ in range(rnd.randint(0, 14))),)
 
 
